@@ -504,7 +504,7 @@ func ruleSClone(w *World, r *Report) {
 			if len(b.Instrs) == 0 {
 				continue
 			}
-			ret, ok := b.Instrs[len(b.Instrs)-1].(*ssa.Return)
+			ret, ok := normalReturn(b)
 			if !ok || len(ret.Results) != 1 {
 				continue
 			}
@@ -519,7 +519,7 @@ func ruleSClone(w *World, r *Report) {
 
 func (w *World) checkCloneReturn(r *Report, qt *QType, fn *ssa.Function, ret *ssa.Return, variants map[string]map[string]bool) {
 	pos := w.instrPos(ret)
-	v := strip(ret.Results[0])
+	v := strip(retVal(ret, 0))
 	if mi, ok := v.(*ssa.MakeInterface); ok {
 		v = strip(mi.X)
 	}
@@ -1242,11 +1242,11 @@ func (w *World) checkFunctionArgs(r *Report, pure map[string]bool) {
 		if len(b.Instrs) == 0 {
 			continue
 		}
-		ret, ok := b.Instrs[len(b.Instrs)-1].(*ssa.Return)
+		ret, ok := normalReturn(b)
 		if !ok {
 			continue
 		}
-		v := strip(ret.Results[0])
+		v := strip(retVal(ret, 0))
 		key := "functionArgs:return"
 		if w.isCloneCall(v) && resolve(v.(*ssa.Call).Call.Value) == ssa.Value(p) {
 			r.ok("S-SHARED", key, w.instrPos(ret), "returns param.Clone()")
